@@ -68,6 +68,7 @@ def units(tier):
     us.append(("dst-fold",))
     us.append(("logical-unions",))
     us.append(("containers",))
+    us.append(("tz-switch",))
     us.append(("uuid",))
     for p in range(1, (3 if tier == "quick" else 4) + 1):
         for sc in range(0, p + 1):
@@ -425,6 +426,37 @@ def run_unit(unit, tier):
                                 res.add(Violation("c16.container-position", f"logical-in-{shape}-not-converted:{leaf['logicalType']}",
                                                   f"{d!r} written under {sch} read back ({how}, reader_schema={'given' if rs is not None else 'none'}) as {got!r}", info))
         res.sample({"type": "logical types inside containers", "leaves": len(samples), "shapes": 8})
+    elif kind == "tz-switch":
+        # the library is imported while the process is in a fixed-offset zone; the zone is UTC again when values are
+        # written (what the local zone is must be asked when a value is converted, not remembered from import time)
+        import os
+        import time as _time
+
+        from .c17 import purge
+        from ..harness import setup_fastavro
+
+        try:
+            for zone in ("EST5", "JST-9", "<+0545>-5:45"):
+                os.environ["TZ"] = zone
+                _time.tzset()
+                purge()
+                fa2 = setup_fastavro()
+                import fastavro._logical_writers_py  # noqa: F401  (imported under `zone`)
+                os.environ["TZ"] = "UTC"
+                _time.tzset()
+                ctx2 = Ctx(fa2, res)
+                for v in (datetime.datetime(1970, 1, 1), datetime.datetime(2021, 3, 4, 5, 6, 7, 8000), datetime.datetime(1969, 12, 31, 23, 59, 59, 999000),
+                          datetime.datetime(9999, 12, 31, 23, 59, 59, 999000), datetime.datetime(1, 1, 1), datetime.datetime(2023, 7, 1, 12)):
+                    for raw in TS_TYPES:
+                        ctx2.check(raw, v)
+                    ctx2.check(TS_TYPES[0], v.replace(tzinfo=UTC))
+                ctx.n += ctx2.n
+        finally:
+            os.environ["TZ"] = "UTC"
+            _time.tzset()
+            purge()
+            setup_fastavro()
+        res.sample({"type": "timestamps", "imported_under": ["EST5", "JST-9", "+05:45"], "written_under": "UTC"})
     elif kind == "uuid":
         raw = S("string", "uuid")
         vals = [uuid.UUID(int=0), uuid.UUID(int=(1 << 128) - 1)] + [uuid.UUID(int=1 << b) for b in range(128)]
